@@ -61,10 +61,31 @@ def findings_block() -> str:
     return '\n'.join(out)
 
 
+def refactorings_block() -> str:
+    table = {}
+    p = f'{V}/refactors/FALSE_ALARM_TABLE.txt'
+    if os.path.exists(p):
+        for line in open(p):
+            parts = line.split(None, 2)
+            if len(parts) >= 2:
+                table[parts[0]] = (parts[1], parts[2].strip() if len(parts) > 2 else '')
+    out = ['| refactoring | function(s) | kind of rewrite (author) | all 20 checks on it |', '|---|---|---|---|']
+    for d in sorted(glob.glob(f'{V}/refactors/C*-r*')):
+        m = json.load(open(os.path.join(d, 'meta.json')))
+        name = os.path.basename(d)
+        st, which = table.get(name, ('?', ''))
+        fns = m.get('functions', m.get('function', ''))
+        fns = ', '.join(fns) if isinstance(fns, list) else str(fns)
+        kind = str(m.get('kind', '')).replace('|', '/').replace('\n', ' ')
+        out.append(f"| {name} | {fns[:90].replace('|', '/')}{'…' if len(fns) > 90 else ''} | {kind[:110]}{'…' if len(kind) > 110 else ''} | {st}{(' (' + which + ')') if which else ''} |")
+    return '\n'.join(out)
+
+
 def main():
     p = f'{V}/DESIGN.md'
     s = open(p).read()
-    for tag, fn in (('RULES-AS-BUILT', rules_block), ('SEEDED-CHANGES', seeds_block), ('FINDINGS', findings_block)):
+    for tag, fn in (('RULES-AS-BUILT', rules_block), ('SEEDED-CHANGES', seeds_block), ('FINDINGS', findings_block),
+                    ('REFACTORINGS', refactorings_block)):
         b, e = f'<!-- BEGIN {tag} -->', f'<!-- END {tag} -->'
         if b not in s or e not in s:
             print('marker missing:', tag)
